@@ -584,8 +584,11 @@ def _interp_job(spec):
     out["metadata"] = ym.get("metadata.yaml")
     out["opcard"] = ym.get("operator.yaml")
     try:
+        import tempfile
+
         from eko.io.struct import EKO
 
+        tempfile.tempdir = str(wd / "tmp")  # (forked worker) eko's temporary directory goes to scratch
         with EKO.read(wd / "out.tar") as e:
             out["read_xgrid_log"] = bool(e.xgrid.log)
             out["read_xgrid"] = [float(x) for x in e.xgrid.raw]
